@@ -111,6 +111,18 @@ def check(ctx):
                         if D is not None:
                             bases.setdefault(dir_kind(D), {}).setdefault(cmd, set()).add(
                                 base_class(V, D))
+    # the decode call is configured identically for every reader
+    kwsets = {}
+    for cmd in ('list', 'rm', 'restore'):
+        for what, node, term in location_uses(ctx, cmd):
+            for u in unquote_calls(term):
+                key = (u.fn, tuple((k, short(v, 30)) for k, v in u.kwargs), len(u.args))
+                kwsets.setdefault(key, set()).add(cmd)
+    ctx.ob('R20.2', 'every reader decodes the Path with the same function and options',
+           len(kwsets) == 1, construct='Path decoding', text=str(sorted(map(str, kwsets))),
+           message='the Path is decoded differently: %s (e.g. errors=... in one reader only: '
+                   'bytes that are not UTF-8 yield different names)'
+                   % {str(k): sorted(v) for k, v in kwsets.items()})
     for cmd in ('list', 'restore', 'empty'):
         b = ctx.graph(cmd)
         for what, node, term in date_uses(ctx, cmd):
